@@ -44,11 +44,17 @@ type NodeSpec struct {
 	PS      int   `json:"ps,omitempty"`    // ProcessState calls of a lambda
 	Preds   []int `json:"preds,omitempty"` // empty = START
 	DelayUs int   `json:"delay,omitempty"` // sleep inside the lambda body
+	// state type (0 = *St, 1 = *St2) the pre-handler / post-handler / ProcessState calls of
+	// this node are written for; nil = the type of the state the node sees (well typed)
+	PreTy  *int `json:"prety,omitempty"`
+	PostTy *int `json:"postty,omitempty"`
+	PSTy   *int `json:"psty,omitempty"`
 }
 
 type GraphSpec struct {
 	Mode  string     `json:"mode"` // pregel | dag | eager
 	State bool       `json:"state"`
+	STy   int        `json:"sty,omitempty"` // type of the state the graph declares: 0 = *St, 1 = *St2
 	Nodes []NodeSpec `json:"nodes"`
 }
 
@@ -84,6 +90,10 @@ type St struct {
 	Log   []int64
 	Busy  bool
 }
+
+// St2 is a second, distinct state type with the same representation (a graph declares one
+// of the two; handlers and ProcessState calls are written for one of the two).
+type St2 St
 
 const prime = 1000003
 
@@ -337,43 +347,90 @@ func readAll(sr *schema.StreamReader[M]) (M, error) {
 	}
 }
 
-func (h *rec) nodeOpts(c *Case, g *GraphSpec, n NodeSpec) []compose.GraphAddNodeOpt {
-	var opts []compose.GraphAddNodeOpt
+// asSt views a state of either type as *St (same representation).
+func asSt[S any](s S) *St {
+	switch t := any(s).(type) {
+	case *St:
+		return t
+	case *St2:
+		return (*St)(t)
+	}
+	return nil
+}
+
+func handlerOpts[S any](h *rec, n NodeSpec, pre bool) compose.GraphAddNodeOpt {
 	id := n.ID
+	kc := kPost
+	stream := n.SPost
+	if pre {
+		kc, stream = kPre, n.SPre
+	}
+	if stream {
+		f := func(ctx context.Context, in *schema.StreamReader[M], s S) (*schema.StreamReader[M], error) {
+			m, err := readAll(in)
+			if err != nil {
+				return nil, err
+			}
+			return schema.StreamReaderFromArray([]M{toM(h.cs(ctx, id, kc, fromM(m), asSt(s)))}), nil
+		}
+		if pre {
+			return compose.WithStreamStatePreHandler(f)
+		}
+		return compose.WithStreamStatePostHandler(f)
+	}
+	f := func(ctx context.Context, in M, s S) (M, error) {
+		return toM(h.cs(ctx, id, kc, fromM(in), asSt(s))), nil
+	}
+	if pre {
+		return compose.WithStatePreHandler(f)
+	}
+	return compose.WithStatePostHandler(f)
+}
+
+// state type the nodes of graph gi see (type of the nearest enclosing graph that declares
+// state; 0 if none)
+func (c *Case) visibleTy(gi int) int {
+	if o := c.ownerOf(gi); o >= 0 {
+		return c.Forest[o].STy
+	}
+	return 0
+}
+
+func tyOr(p *int, def int) int {
+	if p != nil {
+		return *p
+	}
+	return def
+}
+
+func (h *rec) nodeOpts(c *Case, gi int, n NodeSpec) []compose.GraphAddNodeOpt {
+	var opts []compose.GraphAddNodeOpt
+	def := c.Forest[gi].STy
 	if n.Pre {
-		if n.SPre {
-			opts = append(opts, compose.WithStreamStatePreHandler(func(ctx context.Context, in *schema.StreamReader[M], s *St) (*schema.StreamReader[M], error) {
-				m, err := readAll(in)
-				if err != nil {
-					return nil, err
-				}
-				return schema.StreamReaderFromArray([]M{toM(h.cs(ctx, id, kPre, fromM(m), s))}), nil
-			}))
+		if tyOr(n.PreTy, def) == 1 {
+			opts = append(opts, handlerOpts[*St2](h, n, true))
 		} else {
-			opts = append(opts, compose.WithStatePreHandler(func(ctx context.Context, in M, s *St) (M, error) {
-				return toM(h.cs(ctx, id, kPre, fromM(in), s)), nil
-			}))
+			opts = append(opts, handlerOpts[*St](h, n, true))
 		}
 	}
 	if n.Post {
-		if n.SPost {
-			opts = append(opts, compose.WithStreamStatePostHandler(func(ctx context.Context, in *schema.StreamReader[M], s *St) (*schema.StreamReader[M], error) {
-				m, err := readAll(in)
-				if err != nil {
-					return nil, err
-				}
-				return schema.StreamReaderFromArray([]M{toM(h.cs(ctx, id, kPost, fromM(m), s))}), nil
-			}))
+		if tyOr(n.PostTy, def) == 1 {
+			opts = append(opts, handlerOpts[*St2](h, n, false))
 		} else {
-			opts = append(opts, compose.WithStatePostHandler(func(ctx context.Context, in M, s *St) (M, error) {
-				return toM(h.cs(ctx, id, kPost, fromM(in), s)), nil
-			}))
+			opts = append(opts, handlerOpts[*St](h, n, false))
 		}
 	}
 	return opts
 }
 
-func (h *rec) lambda(n NodeSpec) *compose.Lambda {
+func processState[S any](h *rec, ctx context.Context, id, kc int, x *[]KV) error {
+	return compose.ProcessState[S](ctx, func(ctx context.Context, s S) error {
+		*x = h.cs(ctx, id, kc, *x, asSt(s))
+		return nil
+	})
+}
+
+func (h *rec) lambda(n NodeSpec, psTy int) *compose.Lambda {
 	id, ps, delay := n.ID, n.PS, n.DelayUs
 	return compose.InvokableLambda(func(ctx context.Context, in M) (M, error) {
 		atomic.AddInt64(&h.active, 1)
@@ -383,11 +440,12 @@ func (h *rec) lambda(n NodeSpec) *compose.Lambda {
 			time.Sleep(time.Duration(delay) * time.Microsecond)
 		}
 		for j := 0; j < ps; j++ {
-			jj := j
-			err := compose.ProcessState[*St](ctx, func(ctx context.Context, s *St) error {
-				x = h.cs(ctx, id, kBody+jj, x, s)
-				return nil
-			})
+			var err error
+			if psTy == 1 {
+				err = processState[*St2](h, ctx, id, kBody+j, &x)
+			} else {
+				err = processState[*St](h, ctx, id, kBody+j, &x)
+			}
 			if err != nil {
 				return nil, err
 			}
@@ -400,6 +458,12 @@ func (h *rec) lambda(n NodeSpec) *compose.Lambda {
 func (h *rec) newGraphOpts(gi int, g *GraphSpec) []compose.NewGraphOption {
 	if !g.State {
 		return nil
+	}
+	if g.STy == 1 {
+		return []compose.NewGraphOption{compose.WithGenLocalState(func(ctx context.Context) *St2 {
+			atomic.AddInt64(&h.gens, 1)
+			return &St2{Total: int64(gi) * 1000, Cnt: map[string]int64{}}
+		})}
 	}
 	return []compose.NewGraphOption{compose.WithGenLocalState(func(ctx context.Context) *St {
 		atomic.AddInt64(&h.gens, 1)
@@ -445,10 +509,10 @@ func (h *rec) build(c *Case, gi int, depth int) (compose.AnyGraph, error) {
 				if err != nil {
 					return nil, err
 				}
-				opts := append(h.nodeOpts(c, g, n), compose.WithGraphCompileOptions(c.compileOpts(n.Sub)...))
+				opts := append(h.nodeOpts(c, gi, n), compose.WithGraphCompileOptions(c.compileOpts(n.Sub)...))
 				wn = wf.AddGraphNode(nkey(n.ID), sub, opts...)
 			} else {
-				wn = wf.AddLambdaNode(nkey(n.ID), h.lambda(n), h.nodeOpts(c, g, n)...)
+				wn = wf.AddLambdaNode(nkey(n.ID), h.lambda(n, tyOr(n.PSTy, c.visibleTy(gi))), h.nodeOpts(c, gi, n)...)
 			}
 			if len(n.Preds) == 0 {
 				wn.AddInput(compose.START)
@@ -481,10 +545,10 @@ func (h *rec) build(c *Case, gi int, depth int) (compose.AnyGraph, error) {
 			if err != nil {
 				return nil, err
 			}
-			opts := append(h.nodeOpts(c, g, n), compose.WithGraphCompileOptions(c.compileOpts(n.Sub)...))
+			opts := append(h.nodeOpts(c, gi, n), compose.WithGraphCompileOptions(c.compileOpts(n.Sub)...))
 			note(gr.AddGraphNode(nkey(n.ID), sub, opts...))
 		} else {
-			note(gr.AddLambdaNode(nkey(n.ID), h.lambda(n), h.nodeOpts(c, g, n)...))
+			note(gr.AddLambdaNode(nkey(n.ID), h.lambda(n, tyOr(n.PSTy, c.visibleTy(gi))), h.nodeOpts(c, gi, n)...))
 		}
 	}
 	for _, n := range g.Nodes {
@@ -551,7 +615,7 @@ func (c *Case) infoSnaps(info *compose.InterruptInfo, gi int, out *[]SnapState, 
 	if info == nil {
 		return
 	}
-	if s, ok := info.State.(*St); ok && s != nil {
+	if s := asSt(info.State); s != nil {
 		*out = append(*out, SnapState{Graph: gi, S: obsState(s)})
 		*olds = append(*olds, s)
 	}
@@ -594,8 +658,8 @@ func (h *rec) oneRun(c *Case, r compose.Runnable[M, M], run int, resumes *[]Resu
 	out, err := h.call(c, r, ctx, opts...)
 	if c.Interrupt != nil && c.Interrupt.Modifier {
 		opts = append(opts, compose.WithStateModifier(func(ctx context.Context, path compose.NodePath, state any) error {
-			s, ok := state.(*St)
-			if !ok || s == nil {
+			s := asSt(state)
+			if s == nil {
 				return nil
 			}
 			s.Total += 100000
@@ -635,7 +699,10 @@ func (h *rec) oneRun(c *Case, r compose.Runnable[M, M], run int, resumes *[]Resu
 func pathOf(p compose.NodePath) []string { return (&p).GetPath() }
 
 func (c *Case) execute() (o Obs, hang bool) {
-	regOnce.Do(func() { _ = compose.RegisterSerializableType[St]("c11_state") })
+	regOnce.Do(func() {
+		_ = compose.RegisterSerializableType[St]("c11_state")
+		_ = compose.RegisterSerializableType[St2]("c11_state2")
+	})
 	h := &rec{yseed: c.Yield, mods: map[int][]int{}}
 	top, err := h.build(c, 0, 0)
 	if err != nil {
@@ -850,7 +917,16 @@ func (c *Case) coqTerm(o *Obs) string {
 		}
 		results[i] = lib.CoqPair(lib.CoqN(uint64(r.Run)), oc)
 	}
-	return lib.CoqApp("mkCase", c.coqForest(), coqX([]KV{{0, c.X0}}), lib.CoqN(uint64(c.Runs)),
+	gty := make([]string, len(c.Forest))
+	var nty []string
+	for gi, g := range c.Forest {
+		gty[gi] = lib.CoqN(uint64(g.STy))
+		for _, n := range g.Nodes {
+			nty = append(nty, lib.CoqPair(lib.CoqN(uint64(n.ID)), lib.CoqPair(lib.CoqN(uint64(tyOr(n.PreTy, g.STy))),
+				lib.CoqPair(lib.CoqN(uint64(tyOr(n.PostTy, g.STy))), lib.CoqN(uint64(tyOr(n.PSTy, c.visibleTy(gi))))))))
+		}
+	}
+	return lib.CoqApp("mkCase", c.coqForest(), lib.CoqList(gty), lib.CoqList(nty), coqX([]KV{{0, c.X0}}), lib.CoqN(uint64(c.Runs)),
 		lib.CoqBool(o.BuildErr != ""), "\n  "+lib.CoqList(logs), "\n  "+lib.CoqList(finals), lib.CoqList(results),
 		lib.CoqN(uint64(o.Gens)))
 }
@@ -935,6 +1011,19 @@ func (c *Case) tags(o *Obs) []string {
 			}
 		} else {
 			t = append(t, "interrupt:not-hit")
+		}
+	}
+	for gi, g := range c.Forest {
+		if g.State && g.STy == 1 {
+			t = append(t, "state-type:St2")
+		}
+		for _, n := range g.Nodes {
+			if (n.Pre && tyOr(n.PreTy, g.STy) != g.STy) || (n.Post && tyOr(n.PostTy, g.STy) != g.STy) {
+				t = append(t, "malformed:handler-state-type")
+			}
+			if n.Sub < 0 && n.PS > 0 && c.ownerOf(gi) >= 0 && tyOr(n.PSTy, c.visibleTy(gi)) != c.visibleTy(gi) {
+				t = append(t, "malformed:processstate-type")
+			}
 		}
 	}
 	if o.BuildErr != "" {
@@ -1135,15 +1224,60 @@ func (c *Case) oracle(o *Obs) (string, string) {
 					want += 100000
 				}
 			}
+			// the next thing that happens to that state: a critical section, or (no section
+			// in between) the next interrupt of the same run that checkpoints it again
+			nextSeq, nextSeen, found := int64(0), int64(0), false
 			for _, e := range o.Events {
 				k2 := ptrKey[e.Obj]
 				if e.Seq > r.Seq && k2.run == r.Run && k2.owner == sn.Graph {
-					if e.Seen != want {
-						return fmt.Sprintf("graph %d: counter %d at the interrupt, %d seen by the first section after resume", sn.Graph, want, e.Seen), "resume-state"
-					}
+					nextSeq, nextSeen, found = e.Seq, e.Seen, true
 					break
 				}
 			}
+			for _, r2 := range o.Resumes {
+				if r2.Run != r.Run || r2.Seq <= r.Seq || (found && r2.Seq > nextSeq) {
+					continue
+				}
+				for _, sn2 := range r2.Snaps {
+					if sn2.Graph == sn.Graph && (!found || r2.Seq < nextSeq) {
+						nextSeq, nextSeen, found = r2.Seq, sn2.S.Total, true
+					}
+				}
+			}
+			if found && nextSeen != want {
+				return fmt.Sprintf("graph %d: counter %d at the interrupt, %d seen by the first section after resume", sn.Graph, want, nextSeen), "resume-state"
+			}
+		}
+	}
+	// completeness and value flow for the runs that returned a value: every critical section
+	// the program has was performed, each received the value determined by what the earlier
+	// handlers returned, and the run's result is the merge of the final outputs of the sinks
+	for _, r := range o.Results {
+		if r.Class != "val" {
+			continue
+		}
+		ev := &flowEval{c: c, run: r.Run, pos: map[[2]int]*Event{}, memo: map[string][]KV{}}
+		for _, e := range o.Events {
+			if e.Run == r.Run {
+				ev.pos[[2]int{e.Node, e.KC}] = e
+			}
+		}
+		for gi := range c.Forest {
+			for _, n := range c.Forest[gi].Nodes {
+				if what := ev.checkNode(gi, n); what != "" {
+					return what, ev.sig
+				}
+			}
+		}
+		var outs [][]KV
+		for _, sn := range c.sinks(&c.Forest[0]) {
+			outs = append(outs, ev.final(0, sn))
+		}
+		if ev.bad == "" && !eqX(mergeKV(outs), r.Val) {
+			return fmt.Sprintf("run %d: the result is not the merge of the final outputs of the last nodes", r.Run), "flow"
+		}
+		if ev.bad != "" {
+			return ev.bad, ev.sig
 		}
 	}
 	// generator calls
@@ -1165,6 +1299,130 @@ func (c *Case) oracle(o *Obs) (string, string) {
 		}
 	}
 	return "", ""
+}
+
+// flowEval computes, from the values the critical sections of one run returned, the value
+// every section and every node must have received (the data flow of the layered graphs).
+type flowEval struct {
+	c    *Case
+	run  int
+	pos  map[[2]int]*Event
+	memo map[string][]KV
+	bad  string
+	sig  string
+}
+
+func mergeKV(xs [][]KV) []KV {
+	var out []KV
+	for _, x := range xs {
+		out = append(out, x...)
+	}
+	sort.SliceStable(out, func(i, j int) bool { return out[i].K < out[j].K })
+	return out
+}
+
+func (ev *flowEval) fail(sig, format string, a ...any) {
+	if ev.bad == "" {
+		ev.bad, ev.sig = fmt.Sprintf(format, a...), sig
+	}
+}
+
+func (ev *flowEval) out(node, kc int) []KV {
+	e := ev.pos[[2]int{node, kc}]
+	if e == nil {
+		ev.fail("missing", "run %d returned a value but critical section (node %d, kind %d) was never performed", ev.run, node, kc)
+		return nil
+	}
+	return e.Out
+}
+
+// what the predecessors (or the graph's input) deliver to node n of graph gi
+func (ev *flowEval) nodeIn(gi int, n NodeSpec) []KV {
+	key := fmt.Sprintf("in%d", n.ID)
+	if v, ok := ev.memo[key]; ok {
+		return v
+	}
+	var v []KV
+	if len(n.Preds) == 0 {
+		if gi == 0 {
+			v = []KV{{0, ev.c.X0}}
+		} else {
+			pg := ev.c.parentOf(gi)
+			for _, pn := range ev.c.Forest[pg].Nodes {
+				if pn.Sub == gi {
+					v = ev.bodyIn(pg, pn)
+				}
+			}
+		}
+	} else {
+		var xs [][]KV
+		for _, p := range n.Preds {
+			if pn := ev.c.nodeByID(&ev.c.Forest[gi], p); pn != nil {
+				xs = append(xs, ev.final(gi, *pn))
+			}
+		}
+		v = mergeKV(xs)
+	}
+	ev.memo[key] = v
+	return v
+}
+
+func (ev *flowEval) bodyIn(gi int, n NodeSpec) []KV {
+	if n.Pre {
+		return ev.out(n.ID, kPre)
+	}
+	return ev.nodeIn(gi, n)
+}
+
+func (ev *flowEval) nodeOut(gi int, n NodeSpec) []KV {
+	if n.Sub >= 0 && n.Sub < len(ev.c.Forest) {
+		var xs [][]KV
+		for _, sn := range ev.c.sinks(&ev.c.Forest[n.Sub]) {
+			xs = append(xs, ev.final(n.Sub, sn))
+		}
+		return mergeKV(xs)
+	}
+	if n.PS > 0 {
+		return leafOut(n.ID, ev.out(n.ID, kBody+n.PS-1))
+	}
+	return leafOut(n.ID, ev.bodyIn(gi, n))
+}
+
+func (ev *flowEval) final(gi int, n NodeSpec) []KV {
+	if n.Post {
+		return ev.out(n.ID, kPost)
+	}
+	return ev.nodeOut(gi, n)
+}
+
+// every section of node n was performed and received the value the flow determines
+func (ev *flowEval) checkNode(gi int, n NodeSpec) string {
+	chk := func(kc int, want []KV, what string) {
+		e := ev.pos[[2]int{n.ID, kc}]
+		if e == nil {
+			ev.fail("missing", "run %d returned a value but critical section (node %d, kind %d) was never performed", ev.run, n.ID, kc)
+			return
+		}
+		if ev.bad == "" && !eqX(e.In, want) {
+			ev.fail("flow", "node %d kind %d: %s", n.ID, kc, what)
+		}
+	}
+	if n.Pre {
+		chk(kPre, ev.nodeIn(gi, n), "the pre-handler did not receive the merge of the predecessors' final outputs")
+	}
+	if n.Sub < 0 {
+		for j := 0; j < n.PS; j++ {
+			if j == 0 {
+				chk(kBody, ev.bodyIn(gi, n), "the node did not receive what its pre-handler returned / its predecessors delivered")
+			} else {
+				chk(kBody+j, ev.out(n.ID, kBody+j-1), "ProcessState calls out of sequence")
+			}
+		}
+	}
+	if n.Post {
+		chk(kPost, ev.nodeOut(gi, n), "the post-handler did not receive the node's output")
+	}
+	return ev.bad
 }
 
 func eqX(a, b []KV) bool {
